@@ -207,7 +207,7 @@ func c19RandomDoc(r *fw.Rand) []byte {
 	var doc []byte
 	switch r.Intn(4) {
 	case 0:
-		m, _ := gen.FieldwiseManifest(r.Intn(len(gen.LocalDirAlphabet) * 3))
+		m, _ := gen.FieldwiseManifest(r.Intn(len(gen.LocalDirAlphabet) * 4))
 		doc = gen.MutateBytes(r, m.JSON())
 	case 1:
 		doc = gen.RandomManifest(r).JSON()
